@@ -124,6 +124,56 @@ class Fresh:
         return False
 
 
+def _hasher_root(f, o, depth=0):
+    """Origin of a hasher operand: ("new", Event of Digest::new) | ("field", name) | None, through borrows, moves and clones."""
+    p = core.op_place(o)
+    if p is None or depth > 16:
+        return None
+    flds = p.fields()
+    if flds:
+        return ("field", flds[-1])
+    ds = f.defs.get(p.l, [])
+    if len(ds) != 1:
+        return None
+    (b, i, kind, data) = ds[0]
+    if kind == "call":
+        f.events
+        ev = f._ev_at.get(b)
+        if ev is None:
+            return None
+        if re.search(r"digest::digest::Digest>?::new$", ev.name or ""):
+            return ("new", ev)
+        if re.search(r"clone::Clone>?::clone$|Deref(Mut)?>?::deref(_mut)?$", ev.name or "") and ev.args:
+            return _hasher_root(f, ev.args[0], depth + 1)
+        return None
+    rv = data[2]
+    if rv["k"] in ("use", "cast"):
+        return _hasher_root(f, rv["o"], depth + 1)
+    if rv["k"] in ("ref", "rawptr"):
+        pl = core.Place(rv["p"])
+        if pl.fields():
+            return ("field", pl.fields()[-1])
+        return _hasher_root(f, {"c": rv["p"]}, depth + 1)
+    return None
+
+
+def _seeded(fr, f, new_ev, at_block):
+    """Some Digest::update on the hasher created by `new_ev`, fed with a fresh value, dominates `at_block`."""
+    fresh = set(fr.locals(f))
+    if f.path.endswith("derive_copy_e_tag"):
+        fresh |= f.derived_locals([1])          # its `generation` parameter is the fresh value (checked at the call sites)
+    ups = [u for u in f.calls_named(r"digest::digest::Digest>?::update$")
+           if (lambda r: r and r[0] == "new" and r[1] is new_ev)(_hasher_root(f, u.args[0]))]
+    if not ups:
+        return False, "the hasher is never updated before use"
+    for u in ups:
+        a = core.op_place(u.args[1]) if len(u.args) > 1 else None
+        if a is not None and a.l in fresh and f.dominates(u.block, at_block) and u.block != at_block:
+            # nothing else may be fed in before the seed on some path? not required: any dominating fresh update makes the digest unique
+            return True, ""
+    return False, "no update with a fresh value (new_generation / rand_bytes of this commit) dominates the use"
+
+
 def _places(rv):
     out = []
     for o in core._rvalue_operands(rv):
@@ -263,6 +313,45 @@ def run(rep, tier):
                     rep.ob("R07.3", "fresh|%s|%s" % (name, outer), ok,
                            "Metadata.%s written in %s does not derive from a per-commit fresh source (new_generation / rand_bytes): a repeated token lets a stale conditional update pass" % (name, outer),
                            "%s:%d" % (f.file, st[3] if len(st) > 3 else 0))
+    # must-seeded: may-flow is not enough for the digest tokens - "the ciphertext depends on the nonce" is true only when
+    # there is ciphertext; with an empty payload no data update runs and an unseeded hasher yields a constant token.
+    # Every hasher whose digest is finalized is therefore seeded, on every path (dominance), with a per-commit fresh value.
+    nfin = 0
+    for f in prog.fns.values():
+        if not ostore.in_scope(f):
+            continue
+        for F in f.calls_named(r"digest::digest::Digest>?::finalize$"):
+            nfin += 1
+            outer = prog.outer_fn(f)
+            short = outer.path.replace("anda_object_store::", "")
+            root = _hasher_root(f, F.args[0])
+            ok, why = False, "hasher origin not recognised"
+            if root and root[0] == "new":
+                ok, why = _seeded(fr, f, root[1], F.block)
+            elif root and root[0] == "field":
+                adt = outer.impl_adt
+                ctors = []
+                for g in prog.fns.values():
+                    if not ostore.in_scope(g):
+                        continue
+                    for b in g.live_blocks():
+                        for st in g.stmts(b):
+                            if st[0] == "A" and st[2]["k"] == "agg" and st[2]["a"].get("def") == adt and root[1] in st[2]["a"].get("fields", []):
+                                ctors.append((g, b, st[2]["ops"][st[2]["a"]["fields"].index(root[1])]))
+                ok, why = bool(ctors), "no constructor of %s found" % adt
+                for (g, b, o) in ctors:
+                    r2 = _hasher_root(g, o)
+                    if not (r2 and r2[0] == "new"):
+                        ok, why = False, "field %s of %s is not initialised from a local hasher" % (root[1], adt)
+                        break
+                    ok2, why2 = _seeded(fr, g, r2[1], b)
+                    if not ok2:
+                        ok, why = False, "%s (constructor in %s)" % (why2, prog.outer_fn(g).path.replace("anda_object_store::", ""))
+                        break
+            rep.ob("R07.3", "token-hasher-seeded|%s" % short, ok,
+                   "the digest that becomes a CAS token must be seeded with a per-commit fresh value on every path before anything else: %s" % why, F.where())
+    if nfin < 5:
+        rep.fault("R07.3: only %d finalize sites found (expected the 5 token digests)" % nfin)
     # derive_copy_e_tag mixes the generation in
     d = prog.fn("anda_object_store::derive_copy_e_tag")
     der = d.derived_locals([1], mut_args=True)
